@@ -443,22 +443,23 @@ theorem int_from_prim_exact {bits v : Nat} (n : Nat) (hb1 : 1 ≤ bits) (hb : bi
     ∃ l, intFromPrim bits (n + 1) v = some l ∧ toInt l = signedVal bits v ∧ WF l ∧ l.length = n + 1 :=
   intFromPrim_spec n hb1 hb hv
 
-/-
-FULL STATEMENT (unproved, FALSE of the code as written for LIMBS = 1):
-  ∀ n v, v < 2^128 → toInt (intFromI128 n v) = signedVal 128 v   (or a panic when it does not fit)
-`Int::from_i128` (src/int/from.rs:46-50) has no limb-count assertion; proved for every LIMBS ≥ 2, and
-for LIMBS = 1 what the code does (truncation) with a witness that the value changes.
--/
-theorem int_from_i128_partial {v : Nat} (n : Nat) (hv : v < 2 ^ 128) :
-    toInt (intFromI128 (n + 2) v) = signedVal 128 v ∧ WF (intFromI128 (n + 2) v) ∧
-    (intFromI128 (n + 2) v).length = n + 2 := intFromI128_spec n hv
+/-- `Int::from_i128`: the signed value is preserved for every limb count ≥ 2, and narrower types are refused (the
+    limb-count assertion added by /repo 77eeede; before it `Int::<1>::from_i128` silently truncated — the former
+    `int_from_i128_partial` / `int_from_i128_violates`, kept below about the old formula). FULL. -/
+theorem int_from_i128_exact {v : Nat} (n : Nat) (hv : v < 2 ^ 128) :
+    ∃ l, intFromI128 (n + 2) v = some l ∧ toInt l = signedVal 128 v ∧ WF l ∧ l.length = n + 2 :=
+  intFromI128_spec n hv
 
-theorem int_from_i128_one_limb_truncates (v : Nat) : intFromI128 1 v = [v % B] := intFromI128_one v
+theorem int_from_i128_refuses_narrow (v : Nat) : intFromI128 1 v = none ∧ intFromI128 0 v = none :=
+  intFromI128_narrow v
 
-/-- witness: `Int::<1>::from_i128(i128::MAX) = -1`, `Int::<1>::from_i128(2^64) = 0` -/
-theorem int_from_i128_violates :
-    toInt (intFromI128 1 (2 ^ 127 - 1)) = -1 ∧ signedVal 128 (2 ^ 127 - 1) = 2 ^ 127 - 1 ∧
-    toInt (intFromI128 1 (2 ^ 64)) = 0 ∧ signedVal 128 (2 ^ 64) = 2 ^ 64 := by decide +kernel
+/-- for the record: the constructor as written BEFORE the repair changed the value (witnesses `i128::MAX`, `2^64`) -/
+theorem int_from_i128_old_violated :
+    intFromI128Old 1 (2 ^ 127 - 1) = [(2 ^ 127 - 1) % B] ∧
+    toInt (intFromI128Old 1 (2 ^ 127 - 1)) = -1 ∧ signedVal 128 (2 ^ 127 - 1) = 2 ^ 127 - 1 ∧
+    toInt (intFromI128Old 1 (2 ^ 64)) = 0 ∧ signedVal 128 (2 ^ 64) = 2 ^ 64 := by
+  refine ⟨intFromI128Old_one _, ?_⟩
+  decide +kernel
 
 /-- `concat` / `concat_mixed`: `lo + 2^(64·L) · hi`, exactly -/
 theorem concat_exact {lo hi : List Nat} (hl : WF lo) (hh : WF hi) :
